@@ -58,6 +58,11 @@ CONSTS = [
     ("GOV_MIN_QUORUM", "energy-integration/governance-v2/src/configurable.rs", "MIN_QUORUM"),
     ("GOV_MAX_QUORUM", "energy-integration/governance-v2/src/configurable.rs", "MAX_QUORUM"),
     ("GOV_FULL_PERCENTAGE", "energy-integration/governance-v2/src/configurable.rs", "FULL_PERCENTAGE"),
+    ("GOV_MIN_MIN_FEE_FOR_PROPOSE", "energy-integration/governance-v2/src/configurable.rs", "MIN_MIN_FEE_FOR_PROPOSE"),
+    ("GOV_MAX_MIN_FEE_FOR_PROPOSE", "energy-integration/governance-v2/src/configurable.rs", "MAX_MIN_FEE_FOR_PROPOSE"),
+    ("GOV_DECIMALS_CONST", "energy-integration/governance-v2/src/configurable.rs", "DECIMALS_CONST"),
+    ("GOV_MAX_GAS_LIMIT_PER_BLOCK", "energy-integration/governance-v2/src/configurable.rs", "MAX_GAS_LIMIT_PER_BLOCK"),
+    ("GOV_MAX_PROPOSAL_ACTIONS", "energy-integration/governance-v2/src/proposal.rs", "MAX_GOVERNANCE_PROPOSAL_ACTIONS"),
 ]
 
 # Rust enums whose discriminant order the models rely on: (Coq prefix, file, enum name)
